@@ -32,11 +32,11 @@ INFO = {
     'require': {
         'quick': {'counters': {'cells_compared': 1500000, 'rows_compared': 200000, 'tables_compared': 3000, 'result_sets': 600,
                                'addressing_checks': 100000, 'skip_subsets': 300, 'variants': 150, 'files': 37,
-                               'oracle_selfcheck_cells': 300000, 'touching_cells': 2000},
+                               'oracle_selfcheck_cells': 300000, 'touching_cells': 2000, 'route_landings': 500},
                   'seen': {'simulators': 6, 'variant_kind': 7, 'variant_cell': 14}, 'nontrivial': 300},
         'thorough': {'counters': {'cells_compared': 12000000, 'rows_compared': 1500000, 'tables_compared': 20000, 'result_sets': 4000,
                                   'addressing_checks': 700000, 'skip_subsets': 900, 'variants': 700, 'files': 37,
-                                  'oracle_selfcheck_cells': 3000000, 'touching_cells': 20000},
+                                  'oracle_selfcheck_cells': 3000000, 'touching_cells': 20000, 'route_landings': 500},
                      'seen': {'simulators': 6, 'variant_kind': 7, 'variant_cell': 14}, 'nontrivial': 1200},
     },
     'watchdog_s': {'quick': 1500, 'thorough': 7200},
@@ -321,7 +321,7 @@ def header_columns(t):
     return ' '.join(toks[k + 1:])
 
 
-def check_listing(ctx, path, label, ref, vk, skip, case, base=None, indices=None):
+def check_listing(ctx, path, label, ref, vk, skip, case, base=None, indices=None, routes=False):
     """Opens path with the given skipped tables; compares every exposed table at every result time with ref.
     base: {index: {table: (row names, data)}} from the unskipped reader (differential part).  Returns that dict."""
     T = R.t2listing
@@ -393,9 +393,64 @@ def check_listing(ctx, path, label, ref, vk, skip, case, base=None, indices=None
                                            'result %d: table %r differs between skip_tables=%r and no skipping' % (i, n, sorted(skip)))
             if cmp_.bad > 6:
                 break
+        if routes and not skip and cmp_.bad == 0 and len(ref) >= 2:
+            check_routes(ctx, lst, ref, cmp_, vk)
     finally:
         lst.close()
     return out
+
+
+def check_routes(ctx, lst, ref, cmp_, vk):
+    """The statement speaks of every result time, not of one way of getting there: the tables are compared with
+    the text again after reaching result times through first/last/next/prev, negative indices, time and step
+    (where the reader lands is C07's matter; here the landing index is read back from the reader and the tables
+    must hold what is printed for THAT result set)."""
+    N = len(ref)
+    times = [float(t) for t in lst.fulltimes]
+    steps = [int(s) for s in lst.fullsteps]
+
+    def judge(route):
+        j = lst.index
+        if not isinstance(j, (int, np.integer)) or not (0 <= j < N):
+            return
+        ctx.count('route_landings')
+        ctx.see('route', route)
+        mine, order = merged_tables(ref[j])
+        for name in lst._tablenames:
+            if name in lst._table and name in mine:
+                cmp_.table(int(j), name, lst._table[name], mine[name], vk + ':via-' + route)
+    plan = [('last', [lambda: lst.first(), lambda: lst.last()]),
+            ('index-minus-1', [lambda: setattr(lst, 'index', 0), lambda: setattr(lst, 'index', -1)]),
+            ('index-minus-N', [lambda: lst.last(), lambda: setattr(lst, 'index', -N)]),
+            ('time-beyond-last', [lambda: lst.first(), lambda: setattr(lst, 'time', times[-1] * 2 + 1.0)]),
+            ('step-beyond-last', [lambda: lst.first(), lambda: setattr(lst, 'step', steps[-1] + 7)]),
+            ('time-before-first', [lambda: lst.last(), lambda: setattr(lst, 'time', times[0] - 1.0)])]
+    for route, acts in plan:
+        with ctx.guard(cmp_.case, where='route:' + route) as g:
+            for a in acts:
+                a()
+        if g.raised is None:
+            judge(route)
+    with ctx.guard(cmp_.case, where='route:next') as g:
+        lst.first()
+        for k in range(min(N - 1, 4)):
+            lst.next()
+            judge('next')
+        lst.last()
+        for k in range(min(N - 1, 4)):
+            lst.prev()
+            judge('prev')
+    for i in sorted(set([0, N // 2, N - 1])):
+        with ctx.guard(cmp_.case, where='route:time') as g:
+            lst.index = (i + 1) % N
+            lst.time = times[i]
+        if g.raised is None:
+            judge('time')
+        with ctx.guard(cmp_.case, where='route:step') as g:
+            lst.index = (i + 1) % N
+            lst.step = steps[i]
+        if g.raised is None:
+            judge('step')
 
 
 def read_lines(path):
@@ -474,7 +529,7 @@ def run_variant(ctx, rel, kind, k, skip_sets=None, indices=None):
         raise HarnessError('no result sets found in %s' % rel)
     count_touching(ctx, ref, lines)
     ctx.see('variant_kind', kind)
-    base = check_listing(ctx, fn, rel, ref, kind, (), case, indices=indices)
+    base = check_listing(ctx, fn, rel, ref, kind, (), case, indices=indices, routes=(kind in ('shipped', 'mix', 'digits') and k == 0))
     ctx.evaluated()
     ctx.case((rel, kind, k, ()), nontrivial=(kind != 'shipped'), sample=(kind == 'mix' and len(ctx.samples) < 2))
     if base is None:
